@@ -220,6 +220,7 @@ pub fn mutate(rng: &mut Rng, text: &str) -> (String, &'static str) {
 }
 
 /// a random sequence of tokens
+#[allow(dead_code)]
 pub fn soup(rng: &mut Rng) -> String {
     let n = 1 + rng.below(24);
     let mut s = String::new();
@@ -233,6 +234,7 @@ pub fn soup(rng: &mut Rng) -> String {
 }
 
 /// arbitrary unicode text (valid UTF-8 by construction: Rust `String`)
+#[allow(dead_code)]
 pub fn unicode_noise(rng: &mut Rng) -> String {
     let n = rng.below(40);
     let mut s = String::new();
